@@ -58,6 +58,15 @@ Proof.
       rewrite E in H; inversion H; subst; [reflexivity|congruence].
 Qed.
 
+Lemma send_frame_no_value_error c op r p : snd (send_frame c op r p) <> Some XValueError.
+Proof.
+  unfold send_frame, pop_key. destruct (k_keys c) as [|k ks].
+  - destruct (write_cases c (build op r [x00; x00; x00; x00] p) (op =? OP_CLOSE)) as [(x & E & Hx)|[(c2 & E & _)|(c2 & E & _)]];
+      rewrite E; cbn [snd]; try discriminate; destruct Hx as [Hx|[Hx|Hx]]; subst x; discriminate.
+  - destruct (write_cases (c <| k_keys := ks |>) (build op r k p) (op =? OP_CLOSE)) as [(x & E & Hx)|[(c2 & E & _)|(c2 & E & _)]];
+      rewrite E; cbn [snd]; try discriminate; destruct Hx as [Hx|[Hx|Hx]]; subst x; discriminate.
+Qed.
+
 (* oversize control payloads and close reasons are refused with ValueError and change nothing at all *)
 Theorem control_oversize_refused c p : 125 < blen p ->
   api_call c (CSendPing p) = (c, Some XValueError) /\ api_call c (CSendPong p) = (c, Some XValueError).
